@@ -201,7 +201,7 @@ theorem collect_inv {m : Merge α} {a : Acc α} (h : AInv m a) (i : Nat) :
         · subst hk
           simp only [hs, slotItem] at this
           simp [hi, slotItem, ← this]
-        · simp [hk, this, List.append_assoc]
+        · simp [hk, this]
       · intro j hj
         simp only [List.getElem?_set] at hj
         by_cases hk : i = j
